@@ -472,6 +472,9 @@ func (dr *dagReader) Seek(offset int64, whence int) (int64, error) {
 			}
 		})
 		if err != nil {
+			// The walker stopped somewhere inside the DAG: go back to the
+			// start so that it agrees with the reported position (0).
+			dr.resetPosition()
 			return 0, err
 		}
 
